@@ -37,6 +37,8 @@ def obligations(tier):
                      defs=["MODE=%d" % m], unwind=5, cut_loops=["xstream_context_thread_func@while \\(p_ctx->state == ABTD_XSTREAM_CONTEXT_STATE_WAITING:4", "ABTD_xstream_context_join@while \\(p_ctx->state == ABTD_XSTREAM_CONTEXT_STATE_REQ_JOIN:4"], object_bits=10, backend="cadical",
                      encodes=["xstream_context_thread_func", "ABTD_xstream_context_join", "ABTD_xstream_context_revive", "ABTD_xstream_context_free"],
                      bounds="create + <=1 revive + free; <=3 steps of the other party per sleep; <=3 spurious wake-ups per wait loop (cut by assumption)", symbolic="when the other party acts, spurious wake-ups, whether the stream is revived"))
+    o.append(Obl("xstream_revive", "C17/revive.c", "real ABT_xstream_revive from any state of the stream (scheduler ULT TERMINATED or not; arbitrary stale request bits on the scheduler -- the FINISH of the previous join -- and on its ULT; caller a ULT or an external thread): afterwards the scheduler has no pending request, its ULT is revived once into the root pool, the stream reads RUNNING, the native thread is released exactly once and last; a running stream is refused untouched",
+                 unwind=3, unwindset=SPIN, backend="cadical", encodes=["ABT_xstream_revive"], bounds="one call", symbolic="stale request bits of scheduler and ULT, ULT state, caller kind"))
     import importlib
     c01 = importlib.import_module("props.C01")
     o += [x for x in c01.own_obligations(tier) if x.name == "main_sched_func_replace"]
